@@ -8,7 +8,7 @@ import (
 	"verifharness/hlib"
 )
 
-var classes = []string{"c02", "long", "prefix", "c02", "nested", "located", "root", "c02"}
+var classes = []string{"c02", "long", "prefix", "c02", "nested", "located", "root", "hibyte"}
 
 func main() {
 	hlib.Main(func(a *hlib.Args, e *hlib.Emitter) error { return corelib.RunFiles(a, e, classes, 20000) })
